@@ -269,6 +269,8 @@ def run(ctx, params):
         if k == 0:
             t, origin = gen.valid_tree(rng.choice(["eml", "dataset"]) if rng.random() < 0.5 else rng.choice(anytrees.ROOTS), rng,
                                        rng.choice([5, 20, 60])), "generator-valid"
+            if rng.random() < 0.4:
+                treegen.decorate_like_import(rng, t)
             nodes = snapshot.walk(t)
             for n in rng.sample(nodes, min(4, len(nodes))) + [x for x in nodes if x.name == "title"][:2]:
                 if n.content is not None:
